@@ -123,7 +123,7 @@ func (s *Sync) namespacedClient(peerInfo peer.AddrInfo, rtOpts ...libp2phttp.Rou
 // remembers for the peer, so that the next Syncer created for the peer asks it
 // again. What a peer answered once may have been damaged on the way.
 func (s *Sync) ForgetPeer(peerID peer.ID) {
-	verifhook.LockWait("clienthost.lock", nil, &s.clientHostMutex)
+	verifhook.LockWait("clienthost.lock", peerID, &s.clientHostMutex)
 	s.clientHostMutex.Lock()
 	s.clientHost.RemovePeerMetadata(peerID)
 	s.clientHostMutex.Unlock()
@@ -155,7 +155,7 @@ func (s *Sync) NewSyncer(peerInfo peer.AddrInfo) (*Syncer, error) {
 		}
 	}
 
-	verifhook.LockWait("clienthost.lock", nil, &s.clientHostMutex)
+	verifhook.LockWait("clienthost.lock", peerInfo.ID, &s.clientHostMutex)
 	cli, err = s.namespacedClient(peerInfo, rtOpts...)
 	var plainHTTP bool
 	if err != nil {
